@@ -571,9 +571,17 @@ func (w *c27Worker) run(op string, x []string, remote bool, hint []string, haveH
 			if err := conns[n].c.Client.Subscribe(ch, centrifuge.WithEmitPresence(true)); err != nil {
 				return nil, err
 			}
+			// a second channel: stays with a named-channel unsubscribe, goes with the empty channel (= all channels)
+			if err := conns[n].c.Client.Subscribe(ch+"x", centrifuge.WithEmitPresence(true)); err != nil {
+				return nil, err
+			}
 		}
 		if err := barrierAll(); err != nil {
 			return nil, err
+		}
+		chArg := ch
+		if has(x, "EmptyChannel") {
+			chArg = ""
 		}
 		var opts []centrifuge.UnsubscribeOption
 		for _, o := range x {
@@ -586,7 +594,7 @@ func (w *c27Worker) run(op string, x []string, remote bool, hint []string, haveH
 				opts = append(opts, centrifuge.WithUnsubscribeLabelFilter(tierFilter("pro")))
 			case "AllUsers":
 				opts = append(opts, centrifuge.WithUnsubscribeAllUsers(true))
-			case "AnonUser":
+			case "AnonUser", "EmptyChannel":
 			case "Custom":
 				opts = append(opts, centrifuge.WithCustomUnsubscribe(centrifuge.Unsubscribe{Code: customUnsub, Reason: "custom"}))
 			default:
@@ -598,7 +606,7 @@ func (w *c27Worker) run(op string, x []string, remote bool, hint []string, haveH
 			fm[n] = h.frameMark()
 		}
 		em, cm := A.evMark(), caller.ctrl.mark()
-		if err := caller.env.Node.Unsubscribe(user, ch, opts...); err != nil {
+		if err := caller.env.Node.Unsubscribe(user, chArg, opts...); err != nil {
 			rr.Notes = append(rr.Notes, "Node.Unsubscribe returned "+err.Error())
 		}
 		wire(cm)
@@ -607,7 +615,8 @@ func (w *c27Worker) run(op string, x []string, remote bool, hint []string, haveH
 		}
 		evs := map[string][]string{}
 		for _, ev := range A.evSince(em) {
-			if ev.Kind == "unsubscribe" && ev.Ch == ch {
+			// (connections are reused: an empty-channel unsubscribe also removes channels earlier runs left behind)
+			if ev.Kind == "unsubscribe" && (ev.Ch == ch || ev.Ch == ch+"x") {
 				evs[byID[ev.Client]] = append(evs[byID[ev.Client]], fmt.Sprintf("%d/%s", ev.Code, ev.Extra))
 			}
 		}
@@ -617,38 +626,48 @@ func (w *c27Worker) run(op string, x []string, remote bool, hint []string, haveH
 			h := conns[n]
 			var pushes []string
 			for _, r := range h.framesSince(fm[n]) {
-				if r.Push != nil && r.Push.Unsubscribe != nil {
-					pushes = append(pushes, fmt.Sprintf("%s/%d/%s", yn(r.Push.Channel == ch), r.Push.Unsubscribe.Code, r.Push.Unsubscribe.Reason))
+				if r.Push != nil && r.Push.Unsubscribe != nil && (r.Push.Channel == ch || r.Push.Channel == ch+"x" || r.Push.Channel == "") {
+					pushes = append(pushes, fmt.Sprintf("%s/%d/%s", yn(r.Push.Channel != ""), r.Push.Unsubscribe.Code, r.Push.Unsubscribe.Reason))
 				}
 			}
 			if h.c.Client.IsSubscribed(ch) {
-				if len(pushes)+len(evs[n]) > 0 {
-					rr.Notes = append(rr.Notes, fmt.Sprintf("%s still subscribed but saw %v %v", n, pushes, evs[n]))
+				if len(pushes)+len(evs[n]) > 0 || !h.c.Client.IsSubscribed(ch+"x") {
+					rr.Notes = append(rr.Notes, fmt.Sprintf("%s still subscribed to the channel but saw %v %v, second channel subscribed=%v", n, pushes, evs[n], h.c.Client.IsSubscribed(ch+"x")))
 				}
 				continue
 			}
 			touched = append(touched, n)
-			pv, ev := "other:"+strings.Join(pushes, ","), "other:"+strings.Join(evs[n], ",")
-			if len(pushes) == 1 {
-				switch pushes[0] {
-				case "y/2000/server unsubscribe":
-					pv = "n"
-				case fmt.Sprintf("y/%d/custom", customUnsub):
-					pv = "y"
-				}
+			rest, want := "kept", 1
+			if !h.c.Client.IsSubscribed(ch + "x") {
+				rest, want = "gone", 2
 			}
-			if len(evs[n]) == 1 {
-				switch evs[n][0] {
-				case "2000/server_side=true reason=server unsubscribe":
-					ev = "n"
-				case fmt.Sprintf("%d/server_side=true reason=custom", customUnsub):
-					ev = "y"
+			// one push and one event per channel removed, all with the same code and reason
+			class := func(items []string, def, custom string) string {
+				if len(items) != want {
+					return fmt.Sprintf("other:%d of %d:%s", len(items), want, strings.Join(items, ","))
 				}
+				v := ""
+				for _, it := range items {
+					c := "other:" + it
+					switch it {
+					case def:
+						c = "n"
+					case custom:
+						c = "y"
+					}
+					if v != "" && v != c {
+						return "other:mixed:" + strings.Join(items, ",")
+					}
+					v = c
+				}
+				return v
 			}
-			perOf[n] = map[string]string{"custom": agree(&rr.Notes, "custom", pv, ev)}
+			pv := class(pushes, "y/2000/server unsubscribe", fmt.Sprintf("y/%d/custom", customUnsub))
+			ev := class(evs[n], "2000/server_side=true reason=server unsubscribe", fmt.Sprintf("%d/server_side=true reason=custom", customUnsub))
+			perOf[n] = map[string]string{"custom": agree(&rr.Notes, "custom", pv, ev), "rest": rest}
 		}
 		rr.Eff.Touched = touched
-		w.merge(rr, perOf, touched, []string{"custom"})
+		w.merge(rr, perOf, touched, []string{"custom", "rest"})
 
 	case "disconnect":
 		var opts []centrifuge.DisconnectOption
@@ -954,6 +973,10 @@ func (w *c27Worker) row(ri int, row c27Row, res *vh.Result) {
 			}
 			c27Violate(fmt.Sprintf("%s:%s:%s", row.Op, kind, c), len(row.X), what+fmt.Sprintf("; the remote node behaves as if %s had not been given (control message fields: %v)", c, R.Wire), replay)
 		}
+	}
+	if row.Op == "unsubscribe" && has(row.X, "EmptyChannel") && len(R.Eff.Touched) == 0 && len(L.Eff.Touched) > 0 {
+		c27Violate("unsubscribe:emptych:remote-dropped", len(row.X), what+"; Node.Unsubscribe(user, \"\") is performed on the calling node but has no effect on the connections of another node", replay)
+		return
 	}
 	// shortcut for larger option sets (sets of up to four options always get the full attribution, which is where
 	// every lost option is established): the difference is fully explained by dropping the options already
